@@ -221,6 +221,51 @@ Theorem c14_jwe_produce_consume : forall tbl ch sch ch' sch' kf kf' g ks k so g'
              k_id k' = k_id k /\ k_kid k' = k_kid k /\ k_kty k' = k_kty k.
 Proof. exact jwe_produce_consume. Qed.
 
+
+(* ---------------- the EMITTED token (all JWS paths incl. rfc7797) ---------------- *)
+(* jws_emit g is what a consumer parses from the token emitted for the header
+   object g: compact paths (jws.serialize_compact, jwt.encode,
+   rfc7797.serialize_compact with b64 true / false / absent) encode the
+   protected header object that received set_kid; JSON paths emit "protected" /
+   "header" when non-empty.  The merged header is unchanged by emission ... *)
+Theorem c14_emit_headers : forall g, headers (jws_emit g) = headers g.
+Proof. exact emit_headers. Qed.
+
+(* ... the recorded kid is in the emitted header at the same position ... *)
+Theorem c14_emit_written : forall g k v, written_at g k v -> written_at (jws_emit g) k v.
+Proof. exact emit_written. Qed.
+
+(* ... for compact serializations inside the SIGNED (protected) header ... *)
+Theorem c14_emit_protected_carries : forall g k v,
+  (g_kind g = GJwsCompact \/ g_kind g = GJweCompact) -> written_at g k v ->
+  exists p, g_prot (jws_emit g) = Some p /\ dget p k = Some v.
+Proof. exact emit_protected_carries. Qed.
+
+(* ... and the consumer, given the emitted token and the imported export of
+   the set, finds the producing key *)
+Theorem c14_jws_produce_emit_consume : forall tbl ch ch' kf kf' g ks k g' pub,
+  chooser_ok ch -> guest_wf g ->
+  Forall has_kid ks -> NoDup (map k_kid ks) ->
+  resolve kf g = KSSet ks -> py_truth (hget (headers g) s_kid) = false ->
+  jws_step tbl ch true kf g = Ok (k, g') ->
+  import_key_set (keyset_as_dict ks) = Ok pub -> resolve kf' (jws_emit g') = KSSet pub ->
+  written_at (jws_emit g') s_kid (kid_pv k) /\
+  exists k', jws_step tbl ch' false kf' (jws_emit g') = Ok (k', jws_emit g') /\
+             k_id k' = k_id k /\ k_kid k' = k_kid k /\ k_kty k' = k_kty k.
+Proof. exact jws_produce_emit_consume. Qed.
+
+(* rfc7797.serialize_json with b64 = false has no key type check; when the
+   key has the type of the algorithm it is the ordinary step *)
+Theorem c14_7797_json_step : forall tbl ch kf g k g',
+  jws7797_json_step tbl ch kf g = Ok (k, g') ->
+  (exists kty, jws_precheck (headers g) = Ok kty) /\ guess_key tbl ch kf g true = Ok (k, g').
+Proof. exact jws7797_json_step_spec. Qed.
+
+Theorem c14_7797_json_agrees : forall tbl ch kf g k g' kty,
+  jws7797_json_step tbl ch kf g = Ok (k, g') -> jws_precheck (headers g) = Ok kty ->
+  k_kty k = kty -> jws_step tbl ch true kf g = Ok (k, g').
+Proof. exact jws7797_json_agrees. Qed.
+
 (* ---------------- sender key (ECDH-1PU) by skid ---------------- *)
 Theorem c14_skid_named : forall tbl ch ks g ur,
   py_truth (hget (headers g) s_skid) = true ->
@@ -378,6 +423,16 @@ Example c14_x_table :
   algkeys_get keyset_algorithm_keys (PStr (asc "ECDH-ES")) = Ok (Some ["EC"%string; "OKP"%string]).
 Proof. repeat split; vm_compute; reflexivity. Qed.
 
+(* rfc7797 compact, b64 = false: the kid picked is in the emitted (signed) header *)
+Definition xg_7797 := mkGuest GJwsCompact
+  (Some [(s_alg, PStr (asc "HS256")); (asc "b64", PBool false); (asc "crit", PList [PStr (asc "b64")])]) None None.
+Example c14_x_7797 :
+  exists k g', jws_step xtbl (ch_idx 1) true (KFDirect (KSSet xks)) xg_7797 = Ok (k, g') /\
+    g_prot (jws_emit g') = Some [(s_alg, PStr (asc "HS256")); (asc "b64", PBool false);
+                                 (asc "crit", PList [PStr (asc "b64")]); (s_kid, PStr (asc "c"))] /\
+    jws_step xtbl (ch_idx 0) false (KFDirect (KSSet xks)) (jws_emit g') = Ok (k, jws_emit g') /\ k_id k = 3.
+Proof. eexists; eexists. repeat split; vm_compute; reflexivity. Qed.
+
 Print Assumptions c14_lookup.
 Print Assumptions c14_lookup_err.
 Print Assumptions c14_no_kid_single.
@@ -411,6 +466,12 @@ Print Assumptions c14_ch_idx_ok.
 Print Assumptions c14_produce_consume.
 Print Assumptions c14_jws_produce_consume.
 Print Assumptions c14_jwe_produce_consume.
+Print Assumptions c14_emit_headers.
+Print Assumptions c14_emit_written.
+Print Assumptions c14_emit_protected_carries.
+Print Assumptions c14_jws_produce_emit_consume.
+Print Assumptions c14_7797_json_step.
+Print Assumptions c14_7797_json_agrees.
 Print Assumptions c14_skid_named.
 Print Assumptions c14_skid_required_on_decrypt.
 Print Assumptions c14_skid_pick.
